@@ -226,6 +226,20 @@ pub open spec fn blake2b_rfc(outlen: nat, key: Seq<u8>, salt: Seq<u8>, personal:
 }
 
 // ------------------------------------------------------------------------------------------------
+// ASSUMED std contracts (rule R2: the body of each shim is the original expression)
+// ------------------------------------------------------------------------------------------------
+/// R2 shim for `s.len()` on a byte slice. ASSUMPTION (std guarantee, see `slice::from_raw_parts`): a slice never
+/// spans more than isize::MAX bytes. Needed once: `input.len() + self.buf.len()` in `State::update`.
+#[verifier::external_body]
+pub fn shim_slice_len(s: &[u8]) -> (r: usize)
+    ensures
+        r == s@.len(),
+        r <= isize::MAX as usize,
+{
+    s.len()
+}
+
+// ------------------------------------------------------------------------------------------------
 // Known-answer tests
 // ------------------------------------------------------------------------------------------------
 /// RFC 7693 Appendix A: BLAKE2b-512("abc")
